@@ -35,7 +35,8 @@ Section Line.
 
   (* ---- Line ------------------------------------------------------------------------------------------------
      vg.almost_zero(along) = np.allclose(along, 0, rtol=0, atol=1e-8) -> ValueError *)
-  Definition atol : F := nfrac O 1 100000000.
+  (* the binary64 constant 1e-8 = 3022314549036573 / 2^78 (slightly above 1/10^8) *)
+  Definition atol : F := nfrac O 3022314549036573 302231454903657293676544.
   Definition almost_zero (v : vec3 F) : bool :=
     nleb O (nabs O (vx v)) atol && nleb O (nabs O (vy v)) atol && nleb O (nabs O (vz v)) atol.
   Definition line_ctor (point along : vec3 F) : result (line F) :=
